@@ -17,5 +17,9 @@ CONSTANTS
   BugNoCloseWrong = TRUE
   BugAbsorb = FALSE
   BugInlineRefresh = FALSE
+  BugPrefixMatch = FALSE
+  BugAnySet = FALSE
+  MasterSet <- Own
+  SetNames <- NamesOwn
 INVARIANTS NoTrafficToWrongRole
 CHECK_DEADLOCK FALSE
